@@ -67,6 +67,12 @@ class Codec:
         for l in impl + model:
             if l.startswith("BADCASE") or l.startswith("PARSEERROR"):
                 raise MachineryError("malformed case reached a runner: " + l[:300])
+        # encoding is a function of the message: the harness encodes every message twice and flags a difference
+        for k, a in enumerate(impl):
+            if " ENC2DIFF " in a:
+                self.chk.violation("encoding the same message a second time gave a different result than the first time (something is remembered between calls)",
+                                   dict(case=cases[k], impl=a[:3000]))
+                impl[k] = a[:a.index(" ENC2DIFF ")]
         # the message version has no accessor; when the harness could not observe it at all ("M ?") it is not compared
         for k, (a, b) in enumerate(zip(impl, model)):
             if " M ? " in a:
